@@ -233,6 +233,17 @@ PROP = {
     "gens": ["c18", "c10", "gofn_bisynckeypreds", "gofn_bisyncpreds"],
     "expected_facts": {
         "c13_slotmode_body": SLOTMODE_BODY,
+        # dimension audit: process-global / long-lived state reached from C13's code (package-level vars, fields of the output filter)
+        "c13_package_state": {
+            "pkg/filter/filter.go": ["field RedisKeyFilter.cmdBlackTrie", "field RedisKeyFilter.cmdWhiteTrie", "field RedisKeyFilter.dbBlackList",
+                                     "field RedisKeyFilter.prefixKeyBlackTrie", "field RedisKeyFilter.prefixKeyWhiteTrie", "field RedisKeyFilter.slotKeyBlackList",
+                                     "field RedisKeyFilter.slotKeyWhiteList", "var NoRouteCmds"],
+            "pkg/redis/checkpoint/bisync.go": ["var ErrBisyncJournalGap", "var bisyncSlotTagCache", "var bisyncSlotTagsBySlot", "var bisyncSlotTagsOnce"],
+            "syncer/bisync.go": ["var bisyncCommitBacklogGauge", "var bisyncCommitGCCounter", "var bisyncFrontierOffsetGauge", "var bisyncFrontierRebuildGauge",
+                                 "var bisyncFrontierSeqGauge", "var bisyncPendingCompactOptions", "var bisyncSingleSlotFailCounter", "var bisyncTxnCommitCounter",
+                                 "var bisyncTxnSuppressCounter", "var bisyncUnitBuildCounter"],
+            "syncer/bisync_rdb.go": [],
+        },
         "c13_rdb_filter_plain": ["ro.outFilter.FilterKey(util.BytesToString(e.Key)) || ro.outFilter.FilterSlot(util.BytesToString(e.Key)) || "
                                  "ro.bisyncNsFilter.FilterKey(util.BytesToString(e.Key)) || ro.bisyncRdbTargetReserved(e.Key)"],
         "c13_rdb_filter": {
@@ -271,7 +282,15 @@ PROP = {
             "DEL on /redis-gunyu/… keys, 2 % of the events, corpus 'H<S>:<cmd>'), keys with an expiry, lazy expiry ahead of the SET inside MULTI: nothing of it may come out as a unit. "
             "The names op carries INPUTS only (ids, random bytes, desired recovery family): whether a start switches the format and what UpdateCheckpoint relabels / drops is computed by the "
             "model (runFull). distinct_nontrivial is not used (histories are compared whole). "
-            "SESSION 5: (15) links with a PARTIAL key filter (prefixKeyBlacklist tmp:; rerun 'partialfilter <sub>'; round-8 seeded mutation): 2 fixed + 25 quick / 600 thorough generated streams of DEL / "
+            "SESSION 5 DIMENSION AUDIT: (16) generated closed-loop histories with USER FILTERS on both links (rerun 'histflt <sub> <n> <dbs>'; 40 quick / 1200 thorough): key prefix black list tmp:, "
+            "command black list lpush, slot black list of one key's slot, in half of them also databases with db 3 black-listed on link B; a third of the events are client writes that meet the filters "
+            "(multi-key DEL / UNLINK / MSET over user:N / tmp:N, LPUSH, single and in transactions); all monitors of the loop apply with 'what must come out' = the projection of the block by the "
+            "filter computed in the harness; no Lean world op. (17) forced cases (rerun dims): the empty key / empty value / empty hash tag / empty transaction, commands whose first argument is "
+            "not a key (BITOP, EVAL, XGROUP, ZUNIONSTORE), keys that contain the control-key shape of another namespace, standalone and cluster parser; client transactions of 1 / 64 / 65 / 1000 "
+            "commands through the whole closed loop (mirror with the lazy expiry included) in all three modes with BatchCmdCount 1 / 8 / 64, both links under the SAME checkpoint name; "
+            "(18) the hash-tag probe under every keyExists policy (replace / ignore / error / default) and with replaceHashTag off as well as on. cfg_* counters per option value in the evidence. "
+            "OBSERVATIONS (counted, not judged): a client transaction led by a SET of a marker-shaped key of ANOTHER namespace is passed over whole (the namespace is reserved whatever the name); "
+            "after a restart the parser does not know the database, so blocks of a black-listed database are forwarded until the next SELECT (C10's subject). (15) links with a PARTIAL key filter (prefixKeyBlacklist tmp:; rerun 'partialfilter <sub>'; round-8 seeded mutation): 2 fixed + 25 quick / 600 thorough generated streams of DEL / "
             "UNLINK / MSET with some filtered keys, single and inside client transactions: (a) the real parser with ALL units held until it has finished (what a slow sender has not taken yet), "
             "(b) the real sync and pipeline send loops into the target double - the units / the business commands executed at the other site are exactly the client blocks projected by the "
             "filter, each once (monitor on the implementation; aliasing of a projected argument list between units shows as unit-content-differs). (14) closed loop with a CLUSTER pair through the real cluster-mode loops in both directions (rerun clusterloop): see partial; (12) histories with databases in the closed loop (rerun 'histdb'): see partial; (13) the hash-tag probe in plain mode (rerun hashtagplain; found D41): real rdb.Loader + "
